@@ -246,7 +246,7 @@ class Generator:
         cfg = {
             'kind': spec.get('kind') or ('footer' if impl == 'footer' else ('vec' if impl == 'vec' else impl)),
             'drain_drop': spec.get('drain_drop'),
-            'cand': spec.get('cand'), 'glue': spec.get('glue'), 'cb': spec.get('cb'), 'splice_drop': spec.get('splice_drop'), 'dfilter': spec.get('dfilter'), 'slice_folds': spec.get('slice_folds'), 'closure_rel': spec.get('closure_rel'), 'addr_arith': spec.get('addr_arith'), 'must_forget_self': spec.get('must_forget_self'), 'fwd_closure': spec.get('fwd_closure'), 'fwd_str': spec.get('fwd_str'),
+            'cand': spec.get('cand'), 'glue': spec.get('glue'), 'cb': spec.get('cb'), 'splice_drop': spec.get('splice_drop'), 'dfilter': spec.get('dfilter'), 'slice_folds': spec.get('slice_folds'), 'closure_rel': spec.get('closure_rel'), 'addr_arith': spec.get('addr_arith'), 'must_forget_self': spec.get('must_forget_self'), 'fwd_closure': spec.get('fwd_closure'), 'fwd_str': spec.get('fwd_str'), 'self_is_deref': spec.get('self_is_deref'),
             'trait_grow': spec.get('trait_grow'),
             'wbase': spec.get('wbase'), 'wsize': spec.get('wsize'), 'outer': spec.get('src', spec['name']), 'strip_fns': spec.get('strip_fns'),
             'guard': spec.get('guard'),
